@@ -66,7 +66,9 @@ func drive(r *rng, sr *srvRun, nreq int, names []int, between func()) {
 		case canStart && (len(pend) == 0 || r.chance(45)):
 			name := names[r.intn(len(names))]
 			v := sr.current[name]
-			if v == nil { // deleted: ask for anything
+			if r.chance(15) {
+				sr.startPath(name, []string{"meta", "json"}[r.intn(2)])
+			} else if v == nil { // deleted: ask for anything
 				sr.start(name, 0, 0, 0, 2)
 			} else {
 				z, x, y, ext := pickQuery(r, v)
@@ -116,8 +118,12 @@ func (sr *srvRun) checkCoalescing() {
 			fmt.Sscanf(p[0], "a%d", &name)
 			fmt.Sscanf(p[2], "%d", &off)
 			isFetch := true
-			if v := sr.current[name]; v != nil && uint64(off) >= v.arch.H.DataOff && p[1] != "" {
-				isFetch = false // a tile read: not coalesced by design
+			if p[1] != "" { // conditional reads of tile data and of the metadata section are per request: not coalesced by design
+				for _, v := range sr.versions {
+					if v.name == name && v.tag == tagNum(p[1]) && (uint64(off) >= v.arch.H.DataOff || uint64(off) == v.arch.H.MetaOff) {
+						isFetch = false
+					}
+				}
 			}
 			if isFetch && seen[call] {
 				sr.viol = append(sr.viol, fmt.Sprintf("step %d: two bucket calls for the same header/directory are outstanding at once (%s): the fetch was not shared", i, call))
@@ -342,7 +348,7 @@ func c08microRun(seed uint64, variant int) []string {
 
 // c08metaRun: one metadata or TileJSON request, every placement of up to two replacements among its bucket calls, cold or warm
 // cache, with or without a replacement completed beforehand. Versions differ in metadata, zoom range and layout.   case: metasched ...
-func c08metaRun(seed uint64, kind string, warm, pre, p1, p2 int) []string {
+func c08metaRun(seed uint64, kind string, warm, pre, p1, p2 int) *srvRun {
 	sr := newSrvRun(64)
 	tag := 0
 	mk := func() *srvVersion {
@@ -383,7 +389,7 @@ func c08metaRun(seed uint64, kind string, warm, pre, p1, p2 int) []string {
 	}
 	sr.gate.releaseAll()
 	sr.checkResponses(false)
-	return sr.viol
+	return sr
 }
 
 func c08(r *rng, tier string, o *out) {
@@ -401,13 +407,7 @@ func c08(r *rng, tier string, o *out) {
 							if p1 >= 4 && p1 < 6 || p2 >= 4 && p2 < 6 {
 								continue // a metadata request makes at most three bucket calls per attempt
 							}
-							line := fmt.Sprintf("metasched %d %s %d %d %d %d", seed, kind, warm, pre, p1, p2)
-							impl, viol := runCase("C08", line)
-							idx := o.emit(line, impl, true)
-							o.count("metadata_tilejson_schedule")
-							for _, v := range viol {
-								o.violation(idx, v)
-							}
+							finishRun(o, "C08", c08metaRun(seed, kind, warm, pre, p1, p2), 64, true, "metadata_tilejson_schedule")
 						}
 					}
 				}
@@ -482,20 +482,6 @@ func c08(r *rng, tier string, o *out) {
 // srvReplay re-executes a recorded schedule (case line) against the real server.
 func srvReplay(line string) (string, []string) {
 	f := strings.Fields(line)
-	if f[0] == "metasched" {
-		var seed uint64
-		var warm, pre, p1, p2 int
-		fmt.Sscan(f[1], &seed)
-		fmt.Sscan(f[3], &warm)
-		fmt.Sscan(f[4], &pre)
-		fmt.Sscan(f[5], &p1)
-		fmt.Sscan(f[6], &p2)
-		viol := c08metaRun(seed, f[2], warm, pre, p1, p2)
-		if len(viol) > 0 {
-			return "violated", viol
-		}
-		return "ok", nil
-	}
 	if f[0] == "micro" {
 		var seed uint64
 		var variant int
@@ -527,7 +513,7 @@ func srvReplay(line string) (string, []string) {
 		fmt.Sscanf(f[i+10], "%d", &nd)
 		i += 11 + 4*nd
 		defs = append(defs, vdef{name, tag, unhx(f[i])})
-		i++
+		i += 5 // file, metadata offset and length, the two bodies
 	}
 	// steps
 	steps := strings.Split(line[strings.Index(line, " E ")+3:], " ; ")[1:]
@@ -553,6 +539,10 @@ func srvReplay(line string) (string, []string) {
 			sr.steps = append(sr.steps, s)
 			sr.obs = append(sr.obs, sr.observe())
 			sr.step++
+		case "P":
+			var rid, name, kind int
+			fmt.Sscanf(s, "P %d %d %d", &rid, &name, &kind)
+			sr.startPath(name, map[int]string{1: "meta", 2: "json"}[kind])
 		case "S":
 			var rid, name, ext int
 			var z, x, y uint64
